@@ -134,7 +134,7 @@ theorem spawnAT_pres (s : Sys) (t : Tid) (m : Mid) (preds : List Tid) (obs : Opt
   refine ⟨by simp, fun h => ⟨(h.spawn (.allocTask t m preds obs false 0) now).nodup,
     (h.spawn (.allocTask t m preds obs false 0) now).lt⟩, ?_, ?_, ?_,
     ⟨rfl, rfl, rfl, rfl, [{ pid := s.nextPid, k := .allocTask t m preds obs false 0, wake := now }], rfl,
-      by simp [PK.isDW, PK.isPI, PK.isAI, PK.isTel]⟩⟩
+      by simp [PK.isDW, PK.isPI, PK.isAI, PK.isTel, PK.tag]⟩⟩
   · intro U _ h
     have hU : t ∉ U := fun hh => hns (h.usedRec t hh)
     have hi : t.isIngest = false := by
